@@ -324,7 +324,7 @@ def mon_c03(scripts, stats):
             yield sc, n, 'C03: receive of a message not addressed to the module minted'
         # destination caller: all-zero or names the submitter (the harness passes the bech32 string; compare payloads)
         if any(h['caller']):
-            sub = sc.accounts.get(a.get('from'))
+            sub = acct(sc, a.get('from'))
             # the code names the account by the low 20 bytes of the field (bech32 of caller[12:]); the high 12 bytes are not read
             if sub is not None and h['caller'][12:] != sub:
                 yield sc, n, 'C03: receive succeeded although the destination caller names another account'
@@ -370,3 +370,388 @@ def mon_c08(scripts, stats):
         ds = obs.get('D', [])
         if len(ds) != 2 or not all(d.endswith('ok=1') for d in ds):
             yield sc, n, 'C08: deposit accepted without a successful debit and a successful burn'
+
+
+# ---------------- independent helpers: Keccak-256 and bech32 (written from the specifications) ----------------
+_RC = [0x0000000000000001, 0x0000000000008082, 0x800000000000808A, 0x8000000080008000, 0x000000000000808B, 0x0000000080000001,
+       0x8000000080008081, 0x8000000000008009, 0x000000000000008A, 0x0000000000000088, 0x0000000080008009, 0x000000008000000A,
+       0x000000008000808B, 0x800000000000008B, 0x8000000000008089, 0x8000000000008003, 0x8000000000008002, 0x8000000000000080,
+       0x000000000000800A, 0x800000008000000A, 0x8000000080008081, 0x8000000000008080, 0x0000000080000001, 0x8000000080008008]
+_ROT = [[0, 36, 3, 41, 18], [1, 44, 10, 45, 2], [62, 6, 43, 15, 61], [28, 55, 25, 21, 56], [27, 20, 39, 8, 14]]
+_M = (1 << 64) - 1
+
+
+def _rol(x, n):
+    n %= 64
+    return ((x << n) | (x >> (64 - n))) & _M if n else x
+
+
+def _f(a):
+    for rc in _RC:
+        c = [a[x][0] ^ a[x][1] ^ a[x][2] ^ a[x][3] ^ a[x][4] for x in range(5)]
+        d = [c[(x - 1) % 5] ^ _rol(c[(x + 1) % 5], 1) for x in range(5)]
+        a = [[a[x][y] ^ d[x] for y in range(5)] for x in range(5)]
+        b = [[0] * 5 for _ in range(5)]
+        for x in range(5):
+            for y in range(5):
+                b[y][(2 * x + 3 * y) % 5] = _rol(a[x][y], _ROT[x][y])
+        a = [[b[x][y] ^ ((~b[(x + 1) % 5][y]) & b[(x + 2) % 5][y]) for y in range(5)] for x in range(5)]
+        a[0][0] ^= rc
+    return a
+
+
+def keccak256(data):
+    rate = 136
+    p = bytearray(data)
+    p.append(0x01)
+    while len(p) % rate:
+        p.append(0)
+    p[-1] |= 0x80
+    a = [[0] * 5 for _ in range(5)]
+    for off in range(0, len(p), rate):
+        blk = p[off:off + rate]
+        for i in range(rate // 8):
+            a[i % 5][i // 5] ^= int.from_bytes(blk[8 * i:8 * i + 8], 'little')
+        a = _f(a)
+    out = b''
+    for i in range(4):
+        out += a[i % 5][i // 5].to_bytes(8, 'little')
+    return out
+
+
+_B32 = 'qpzry9x8gf2tvdw0s3jn54khce6mua7l'
+
+
+def _polymod(values):
+    gen = [0x3b6a57b2, 0x26508e6d, 0x1ea119fa, 0x3d4233dd, 0x2a1462b3]
+    chk = 1
+    for v in values:
+        b = chk >> 25
+        chk = ((chk & 0x1ffffff) << 5) ^ v
+        for i in range(5):
+            chk ^= gen[i] if (b >> i) & 1 else 0
+    return chk
+
+
+def bech32(hrp, data):
+    acc, bits, out = 0, 0, []
+    for b in data:
+        acc = (acc << 8) | b
+        bits += 8
+        while bits >= 5:
+            bits -= 5
+            out.append((acc >> bits) & 31)
+    if bits:
+        out.append((acc << (5 - bits)) & 31)
+    hv = [ord(c) >> 5 for c in hrp] + [0] + [ord(c) & 31 for c in hrp]
+    pm = _polymod(hv + out + [0] * 6) ^ 1
+    chk = [(pm >> 5 * (5 - i)) & 31 for i in range(6)]
+    return hrp + '1' + ''.join(_B32[d] for d in out + chk)
+
+
+def dcalls(obs):
+    out = []
+    for d in obs.get('D', []):
+        ws = d.split(' ')
+        a = args_of(d)
+        a['kind'] = ws[1]
+        out.append(a)
+    return out
+
+
+def acct(sc, fromhex):
+    """20-byte payload of a submitter string (hex of the bech32 text), if it is one of the script's accounts"""
+    if fromhex is None:
+        return None
+    v = sc.accounts.get(fromhex)
+    if v is None:
+        try:
+            v = sc.accounts.get(bytes.fromhex(fromhex).decode('latin1').lower().encode('latin1').hex())
+        except ValueError:
+            v = None
+    return v
+
+
+def module_of(sc):
+    return bytes.fromhex(sc.env.get('module', ''))
+
+
+def hrp_of(sc):
+    return bytes.fromhex(sc.env.get('hrp', '')).decode('latin1')
+
+
+def pad32(b):
+    return bytes(32 - len(b)) + b if len(b) <= 32 else b[-32:]
+
+
+# ---------------- C04 ----------------
+def mon_c04(scripts, stats):
+    for sc, n, inp, cmd, ty, a, pre, obs in walk(scripts):
+        if cmd != 'TX':
+            continue
+        ok = outcome(obs) == 'ok'
+        mints = [d for d in dcalls(obs) if d['kind'] == 'Mint']
+        s0, s1 = state_of(pre), state_of(obs.get('S', []))
+        if ty != 'ReceiveMessage' or not ok:
+            stats['mon_c04_other'] += 1
+            if ok and mints:
+                yield sc, n, 'C04: %s minted' % ty
+            if not ok and s0['bal'] != s1['bal']:
+                yield sc, n, 'C04: failed %s changed balances' % ty
+            if [e for e in obs.get('E', []) if ' MintAndWithdraw' in e or ' MessageReceived' in e]:
+                yield sc, n, 'C04: %s (%s) emitted a receive-side event' % (ty, outcome(obs))
+            continue
+        h = msg_header(a['message'])
+        module = h['recipient'] == pad32(module_of(sc))
+        mr = events(obs, 'MessageReceived')
+        want_mr = {'caller': a['from'], 'src': str(h['src']), 'nonce': str(h['nonce']), 'sender': h['sender'].hex(), 'body': h['body'].hex()}
+        if len(mr) != 1 or mr[0] != want_mr:
+            yield sc, n, 'C04: MessageReceived event %s does not report the received message %s' % (mr[:1], want_mr)
+        if not module:
+            stats['mon_c04_nonmodule'] += 1
+            if mints or events(obs, 'MintAndWithdraw') or s0['bal'] != s1['bal']:
+                yield sc, n, 'C04: receive of a message not addressed to the module minted'
+            continue
+        stats['mon_c04_mints'] += 1
+        b = burn_body(h['body'])
+        pairs = [p for p in s0['pair'] if int(p['domain']) == h['src'] and bytes.fromhex(p['token']) == b['token']] if b else []
+        if b is None or not pairs:
+            yield sc, n, 'C04: module-addressed receive succeeded without a burn body / linked pair'
+            continue
+        denom = hexstr(pairs[0]['local']).lower()
+        to = bech32(hrp_of(sc), b['recipient'][12:])
+        want = {'kind': 'Mint', 'from': bech32(hrp_of(sc), module_of(sc)).encode().hex(), 'to': to.encode().hex(),
+                'denom': denom.encode().hex(), 'amt': str(b['amount']), 'ok': '1'}
+        if mints != [want]:
+            yield sc, n, 'C04: mint request %s, the message says %s' % (mints, want)
+        mw = events(obs, 'MintAndWithdraw')
+        want_mw = {'mint_recipient': b['recipient'].hex(), 'amount': str(b['amount']), 'token': denom.encode().hex()}
+        if mw != [want_mw]:
+            yield sc, n, 'C04: MintAndWithdraw event %s, the message says %s' % (mw, want_mw)
+        key = (b['recipient'][12:].hex() + '/' + denom).encode().hex()
+        exp = dict(s0['bal'])
+        exp[key] = exp.get(key, 0) + b['amount']
+        if {k: v for k, v in exp.items() if v} != {k: v for k, v in s1['bal'].items() if v}:
+            yield sc, n, 'C04: balances after the receive are not the balances before plus %d for the recipient' % b['amount']
+
+
+# ---------------- C05 ----------------
+def mon_c05(scripts, stats):
+    for sc, n, inp, cmd, ty, a, pre, obs in walk(scripts):
+        if cmd != 'TX':
+            continue
+        ok = outcome(obs) == 'ok'
+        s0, s1 = state_of(pre), state_of(obs.get('S', []))
+        calls = dcalls(obs)
+        sent = [msg_header(e['message']) for e in events(obs, 'MessageSent')]
+        modpad = pad32(module_of(sc))
+        if ty in ('DepositForBurn', 'DepositForBurnWithCaller') and ok:
+            stats['mon_c05_deposits'] += 1
+            dep = acct(sc, a['from'])
+            amt, tok = a['amount'], a['burn_token']
+            want = [{'kind': 'Transfer', 'from': dep.hex() if dep else (calls[0].get('from') if calls else '?'), 'to': b'cctp'.hex(), 'denom': tok, 'amt': amt, 'ok': '1'},
+                    {'kind': 'Burn', 'from': bech32(hrp_of(sc), module_of(sc)).encode().hex(), 'denom': tok, 'amt': amt, 'ok': '1'}]
+            if calls != want:
+                yield sc, n, 'C05: deposit made dependency calls %s, expected %s' % (calls, want)
+            if len(sent) != 1 or sent[0] is None or sent[0]['sender'] != modpad:
+                yield sc, n, 'C05: deposit did not emit exactly one message speaking as the module'
+            else:
+                b = burn_body(sent[0]['body'])
+                if b is None or str(b['amount']) != amt:
+                    yield sc, n, 'C05: emitted burn message states amount %s, %s was burnt' % (b and b['amount'], amt)
+                if b is not None and dep is not None and b['sender'] != pad32(dep):
+                    yield sc, n, 'C05: emitted burn message names depositor %s, the submitter is %s' % (b['sender'].hex(), dep.hex())
+            if dep is not None:
+                key = (dep.hex() + '/' + hexstr(tok)).encode().hex()
+                exp = dict(s0['bal'])
+                exp[key] = exp.get(key, 0) - int(amt)
+                if {k: v for k, v in exp.items() if v} != {k: v for k, v in s1['bal'].items() if v}:
+                    yield sc, n, 'C05: balances after the deposit are not the balances before minus %s for the depositor (somebody else debited, or funds left in the module account)' % amt
+        else:
+            stats['mon_c05_other'] += 1
+            if ok and [c for c in calls if c['kind'] in ('Transfer', 'Burn')]:
+                yield sc, n, 'C05: %s transferred or burnt' % ty
+            if ty != 'ReceiveMessage' and s0['bal'] != s1['bal']:
+                yield sc, n, 'C05: %s (%s) changed balances' % (ty, outcome(obs))
+            sub = acct(sc, a.get('from'))
+            for m in sent:
+                if m is None:
+                    continue
+                if ty in ('SendMessage', 'SendMessageWithCaller') and sub is not None and m['sender'] != pad32(sub):
+                    yield sc, n, 'C05: %s emitted a message whose sender %s is not the submitter' % (ty, m['sender'].hex())
+                if ty == 'ReplaceMessage' and sub is not None and m['sender'] != pad32(sub):
+                    yield sc, n, 'C05: replace-message emitted a message whose sender %s is not the submitter' % m['sender'].hex()
+                if ty == 'ReplaceDepositForBurn':
+                    o = msg_header(a['orig'])
+                    ob = burn_body(o['body']) if o else None
+                    nb = burn_body(m['body'])
+                    if m['sender'] != modpad or ob is None or nb is None or nb['amount'] != ob['amount'] or (sub is not None and ob['sender'] != pad32(sub)):
+                        yield sc, n, 'C05: replace-deposit-for-burn emitted a module message not backed by the submitter\'s own original burn'
+            if not ok and sent:
+                yield sc, n, 'C05: failed %s emitted a message' % ty
+
+
+# ---------------- C06 ----------------
+def mon_c06(scripts, stats):
+    for sc, n, inp, cmd, ty, a, pre, obs in walk(scripts):
+        if cmd != 'TX' or outcome(obs) != 'ok' or ty not in PRODUCERS + ('ReplaceMessage', 'ReplaceDepositForBurn'):
+            continue
+        stats['mon_c06_producers'] += 1
+        s0 = state_of(pre)
+        sent = [msg_header(e['message']) for e in events(obs, 'MessageSent')]
+        if len(sent) != 1 or sent[0] is None:
+            yield sc, n, 'C06: %s emitted %d well-formed messages' % (ty, len([s for s in sent if s]))
+            continue
+        m = sent[0]
+        sub = acct(sc, a['from'])
+        r = args_of(obs['R'][0])
+        if ty in PRODUCERS:
+            want = {'version': 0, 'src': 4, 'nonce': int(r.get('nonce', -1))}
+            if ty in ('SendMessage', 'SendMessageWithCaller'):
+                want.update(dst=int(a['dest']), recipient=bytes.fromhex(a['recipient']), body=bytes.fromhex(a['body']),
+                            caller=bytes.fromhex(a['caller']) if ty == 'SendMessageWithCaller' else bytes(32))
+                if sub is not None:
+                    want['sender'] = pad32(sub)
+            else:
+                msgr = [x for x in s0['messenger'] if x['domain'] == a['dest']]
+                want.update(dst=int(a['dest']), sender=pad32(module_of(sc)), recipient=bytes.fromhex(msgr[0]['addr']) if msgr else None,
+                            caller=bytes.fromhex(a['caller']) if ty == 'DepositForBurnWithCaller' else bytes(32))
+            bad = [k for k, v in want.items() if m[k] != v]
+            if bad:
+                yield sc, n, 'C06: %s emitted a message whose %s differ from the request (%s)' % (ty, ','.join(bad), {k: (m[k].hex() if isinstance(m[k], bytes) else m[k]) for k in bad})
+            if ty in ('DepositForBurn', 'DepositForBurnWithCaller'):
+                b = burn_body(m['body'])
+                tokhash = keccak256(hexstr(a['burn_token']).lower().encode('latin1'))
+                wb = {'version': 0, 'token': tokhash, 'recipient': bytes.fromhex(a['mint_recipient']), 'amount': int(a['amount'])}
+                if sub is not None:
+                    wb['sender'] = pad32(sub)
+                if b is None or [k for k, v in wb.items() if b[k] != v]:
+                    yield sc, n, 'C06: deposit emitted burn message %s, requested %s' % (b and {k: (v.hex() if isinstance(v, bytes) else v) for k, v in b.items()}, {k: (v.hex() if isinstance(v, bytes) else v) for k, v in wb.items()})
+                ev = events(obs, 'DepositForBurn')
+                msgr = [x for x in s0['messenger'] if x['domain'] == a['dest']]
+                we = {'nonce': r.get('nonce'), 'burn_token': tokhash.hex().encode().hex(), 'amount': a['amount'], 'depositor': a['from'],
+                      'mint_recipient': a['mint_recipient'], 'dest': a['dest'], 'messenger': msgr[0]['addr'] if msgr else None,
+                      'caller': a.get('caller', '')}
+                if ev != [we]:
+                    yield sc, n, 'C06: DepositForBurn event %s, requested %s' % (ev, we)
+        elif ty == 'ReplaceDepositForBurn':
+            o = msg_header(a['orig'])
+            ob = burn_body(o['body'])
+            ev = events(obs, 'DepositForBurn')
+            if len(ev) != 1 or ev[0]['burn_token'] != ob['token'].hex().encode().hex():
+                yield sc, n, 'C06: replacement event names burn token %s, the original message carries %s' % (ev and bytes.fromhex(ev[0]['burn_token']), ob['token'].hex())
+
+
+# ---------------- C09 ----------------
+def mon_c09(scripts, stats):
+    for sc, n, inp, cmd, ty, a, pre, obs in walk(scripts):
+        if cmd != 'TX' or ty not in ('ReplaceMessage', 'ReplaceDepositForBurn'):
+            continue
+        stats['mon_c09_replacements'] += 1
+        if sorted(obs.get('S', [])) != sorted(pre):
+            yield sc, n, 'C09: %s (%s) changed stored state or balances' % (ty, outcome(obs))
+        if obs.get('D'):
+            yield sc, n, 'C09: %s made a dependency call' % ty
+        if outcome(obs) != 'ok':
+            continue
+        s0 = state_of(pre)
+        o = msg_header(a['orig'])
+        sub = acct(sc, a['from'])
+        sent = [msg_header(e['message']) for e in events(obs, 'MessageSent')]
+        if o is None or len(sent) != 1 or sent[0] is None:
+            yield sc, n, 'C09: %s succeeded without a well-formed original / replacement' % ty
+            continue
+        m = sent[0]
+        if s0['flag'].get('sr') == '1' or (ty == 'ReplaceDepositForBurn' and s0['flag'].get('bm') == '1'):
+            yield sc, n, 'C09: %s succeeded while paused' % ty
+        if o['src'] != 4:
+            yield sc, n, 'C09: %s succeeded for an original from domain %d' % (ty, o['src'])
+        same = [k for k in ('version', 'src', 'dst', 'nonce', 'sender', 'recipient') if m[k] != o[k]]
+        if same:
+            yield sc, n, 'C09: replacement changed %s of the original' % ','.join(same)
+        if m['caller'] != bytes.fromhex(a['new_caller']):
+            yield sc, n, 'C09: replacement does not carry the requested destination caller'
+        if ty == 'ReplaceMessage':
+            if sub is not None and o['sender'] != pad32(sub):
+                yield sc, n, 'C09: replace-message succeeded for an original whose sender is not the submitter'
+            if m['body'] != bytes.fromhex(a['new_body']):
+                yield sc, n, 'C09: replacement does not carry the requested body'
+        else:
+            ob, nb = burn_body(o['body']), burn_body(m['body'])
+            if ob is None or nb is None:
+                yield sc, n, 'C09: replace-deposit-for-burn succeeded without burn bodies'
+                continue
+            if o['sender'] != pad32(module_of(sc)):
+                yield sc, n, 'C09: replace-deposit-for-burn succeeded for an original not sent by the module'
+            if sub is not None and ob['sender'] != pad32(sub):
+                yield sc, n, 'C09: replace-deposit-for-burn succeeded for a depositor who is not the submitter'
+            kept = [k for k in ('version', 'token', 'amount', 'sender') if nb[k] != ob[k]]
+            if kept:
+                yield sc, n, 'C09: deposit replacement changed %s of the burn message' % ','.join(kept)
+            if nb['recipient'] != bytes.fromhex(a['new_recipient']) or not any(nb['recipient']):
+                yield sc, n, 'C09: deposit replacement does not carry the requested non-zero mint recipient'
+
+
+# ---------------- C12 ----------------
+def mon_c12(scripts, stats):
+    for sc, n, inp, cmd, ty, a, pre, obs in walk(scripts):
+        if cmd != 'TX':
+            continue
+        s0, s1 = state_of(pre), state_of(obs.get('S', []))
+        ok = outcome(obs) == 'ok'
+        sr, bm = s0['flag'].get('sr') == '1', s0['flag'].get('bm') == '1'
+        if ty in FLOWS:
+            stats['mon_c12_flows'] += 1
+            if sr and ok:
+                yield sc, n, 'C12: %s succeeded while sending-and-receiving is paused' % ty
+            if bm and ok:
+                named = ty in ('DepositForBurn', 'DepositForBurnWithCaller', 'ReplaceDepositForBurn')
+                if ty == 'ReceiveMessage':
+                    h = msg_header(a['message'])
+                    named = h is not None and h['recipient'] == pad32(module_of(sc))
+                if named:
+                    yield sc, n, 'C12: %s succeeded while burning-and-minting is paused' % ty
+        for flag, pause, unpause in (('bm', 'PauseBurningAndMinting', 'UnpauseBurningAndMinting'),
+                                     ('sr', 'PauseSendingAndReceivingMessages', 'UnpauseSendingAndReceivingMessages')):
+            before, after = s0['flag'].get(flag), s1['flag'].get(flag)
+            by_pauser = s0['role'].get('pauser') == a.get('from')
+            if ty == pause and by_pauser:
+                if not ok or after != '1':
+                    yield sc, n, 'C12: %s by the pauser did not set the flag (%s, flag=%s)' % (ty, outcome(obs), after)
+            elif ty == unpause and by_pauser:
+                if not ok or after != '0':
+                    yield sc, n, 'C12: %s by the pauser did not clear the flag (%s, flag=%s)' % (ty, outcome(obs), after)
+            elif before != after:
+                yield sc, n, 'C12: flag %s changed from %s to %s on %s (%s)' % (flag, before, after, ty, outcome(obs))
+        if ty in ADMIN_ROLE and (sr or bm):
+            stats['mon_c12_admin_while_paused'] += 1
+
+
+# ---------------- C14 ----------------
+def mon_c14(scripts, stats):
+    for sc, n, inp, cmd, ty, a, pre, obs in walk(scripts):
+        if cmd != 'TX':
+            continue
+        ok = outcome(obs) == 'ok'
+        calls = dcalls(obs)
+        stats['mon_c14_steps'] += 1
+        if any(c['ok'] == '0' for c in calls):
+            stats['mon_c14_failed_calls'] += 1
+            if ok:
+                yield sc, n, 'C14: %s succeeded although a dependency call failed (%s)' % (ty, [c['kind'] for c in calls if c['ok'] == '0'])
+        if not ok:
+            if sorted(obs.get('S', [])) != sorted(pre):
+                yield sc, n, 'C14: %s returned an error but balances, counters or used nonces changed' % ty
+            if obs.get('E'):
+                yield sc, n, 'C14: %s returned an error but events were emitted' % ty
+            continue
+        if ty in ('DepositForBurn', 'DepositForBurnWithCaller'):
+            kinds = [(c['kind'], c['ok']) for c in calls]
+            if kinds != [('Transfer', '1'), ('Burn', '1')] or len(events(obs, 'MessageSent')) != 1:
+                yield sc, n, 'C14: deposit succeeded without debit, burn and message all having happened (%s, %d messages)' % (kinds, len(events(obs, 'MessageSent')))
+            if int(state_of(obs.get('S', []))['num'].get('nextnonce', '0')) == int(state_of(pre)['num'].get('nextnonce', '0')):
+                yield sc, n, 'C14: deposit succeeded without reserving a nonce'
+        if ty == 'ReceiveMessage':
+            h = msg_header(a['message'])
+            if h is not None and h['recipient'] == pad32(module_of(sc)) and [(c['kind'], c['ok']) for c in calls] != [('Mint', '1')]:
+                yield sc, n, 'C14: module-addressed receive succeeded without a successful mint'
